@@ -758,7 +758,7 @@ class DMRGBackendImpl(MPSBackendImpl):
         max_sweeps: int = 2000,
     ):
 
-        if mps_config.noise_model.noise_types != ():
+        if mps_config.noise_model.noise_types != () or pulser_data.lindblad_ops:
             raise NotImplementedError(
                 "DMRG solver does not currently support noise types"
                 f"you are using: {mps_config.noise_model.noise_types}"
@@ -862,8 +862,9 @@ class DMRGBackendImpl(MPSBackendImpl):
 
 def create_impl(data: SequenceData, config: MPSConfig) -> MPSBackendImpl:
 
+    if config.solver == Solver.DMRG:
+        # DMRGBackendImpl refuses noise models with noise
+        return DMRGBackendImpl(config, data)
     if data.lindblad_ops:
         return NoisyMPSBackendImpl(config, data)
-    if config.solver == Solver.DMRG:
-        return DMRGBackendImpl(config, data)
     return MPSBackendImpl(config, data)
